@@ -297,6 +297,8 @@ class PeerConn:
                 self.tcp.feed(out)
 
     def send(self, data: bytes):
+        if self.closed_by_peer:
+            return  # a TLS peer sends nothing after its own close_notify / FIN
         self.tls.to_send += data
         self.tls.step()
         self._flush()
